@@ -306,3 +306,141 @@ Proof.
 Qed.
 End CVP.
 
+
+(* ------------------------------------------------------------------------------------------ *)
+(** NotificationList: no notification is lost, none is recorded twice *)
+Section NL.
+Definition isp (k : nat) (p : npc) : nat := match p with NPush k' => if Nat.eqb k k' then 1 else 0 | _ => 0 end.
+Fixpoint pushing (k : nat) (l : list npc) : nat :=
+  match l with [] => 0 | p :: tl => isp k p + pushing k tl end.
+
+Lemma pushing_set k : forall l t x, t < length l ->
+  pushing k (nset l t x) + isp k (nth t l NIdle) = pushing k l + isp k x.
+Proof.
+  induction l as [|h tl IH]; intros t x Ht; simpl in Ht; [lia|].
+  destruct t; simpl; [lia|]. specialize (IH t x). unfold nset in IH. lia.
+Qed.
+
+Lemma nth_nset l t x c : t < length l -> nth c (nset l t x) NIdle = if Nat.eqb c t then x else nth c l NIdle.
+Proof. intros. unfold nset. apply Verif.Base.Res.nth_set_nth. auto. Qed.
+
+Lemma nth_lt (l : list npc) c : nth c l NIdle <> NIdle -> c < length l.
+Proof.
+  intro H. destruct (Nat.lt_ge_cases c (length l)); auto. rewrite nth_overflow in H by auto. congruence.
+Qed.
+
+Definition waiting (k : nat) (p : npc) : Prop := p = NChk k \/ p = NSwap k.
+
+Record NLInv (s : nst) : Prop := {
+  nl_cnt : forall k, (if flag s k then 1 else 0) = count_occ Nat.eq_dec (nlist s) k + pushing k (npcs s);
+  nl_called : forall k, In k (called s) -> flag s k = true \/ exists c, waiting k (nth c (npcs s) NIdle);
+  nl_pcs : forall c k, (waiting k (nth c (npcs s) NIdle) \/ nth c (npcs s) NIdle = NPush k) -> In k (called s);
+  nl_flag : forall k, flag s k = true -> In k (called s)
+}.
+
+Lemma pushing_repeat k n : pushing k (repeat NIdle n) = 0.
+Proof. induction n; simpl; auto. Qed.
+Lemma nth_repeat_idle n c : nth c (repeat NIdle n) NIdle = NIdle.
+Proof. revert c. induction n; destruct c; simpl; auto. Qed.
+
+Lemma nlinv_init n : NLInv (ninit n).
+Proof.
+  constructor; simpl; intros.
+  - rewrite pushing_repeat. auto.
+  - destruct H.
+  - rewrite nth_repeat_idle in H. destruct H as [[H|H]|H]; discriminate.
+  - discriminate.
+Qed.
+
+Lemma nlinv_step s s' : NLInv s -> nstep s s' -> NLInv s'.
+Proof.
+  intros I St. inversion St; subst; clear St.
+  - (* call *)
+    rename H into Hlt. rename H0 into Hc.
+    constructor; simpl.
+    + intro k0. pose proof (pushing_set k0 (npcs s) c (NChk k) Hlt) as P. rewrite Hc in P. simpl in P.
+      rewrite (nl_cnt s I k0). lia.
+    + intros k0 [<-|Hin].
+      * right. exists c. rewrite nth_nset by auto. rewrite Nat.eqb_refl. left. auto.
+      * destruct (nl_called s I k0 Hin) as [?|(c' & Hw)]; auto. right. exists c'.
+        rewrite nth_nset by auto. destruct (Nat.eqb_spec c' c) as [->|]; auto.
+        rewrite Hc in Hw. destruct Hw; discriminate.
+    + intros c' k0 H. rewrite nth_nset in H by auto. destruct (Nat.eqb_spec c' c) as [->|].
+      * destruct H as [[H|H]|H]; try discriminate. injection H as <-. left. auto.
+      * right. apply (nl_pcs s I c'); auto.
+    + intros k0 Hf. right. apply (nl_flag s I); auto.
+  - (* load *)
+    rename H into Hc. assert (Hlt : c < length (npcs s)) by (apply nth_lt; congruence).
+    constructor; simpl.
+    + intro k0. pose proof (pushing_set k0 (npcs s) c (if flag s k then NIdle else NSwap k) Hlt) as P.
+      rewrite Hc in P. rewrite (nl_cnt s I k0). destruct (flag s k); simpl in P; lia.
+    + intros k0 Hin. destruct (nl_called s I k0 Hin) as [?|(c' & Hw)]; auto.
+      destruct (Nat.eq_dec c' c) as [->|N].
+      * rewrite Hc in Hw. destruct Hw as [Hw|Hw]; [|discriminate]. injection Hw as <-.
+        destruct (flag s k) eqn:Ef; auto. right. exists c. rewrite nth_nset by auto.
+        rewrite Nat.eqb_refl. right. auto.
+      * right. exists c'. rewrite nth_nset by auto. destruct (Nat.eqb_spec c' c); [congruence|auto].
+    + intros c' k0 H. rewrite nth_nset in H by auto. destruct (Nat.eqb_spec c' c) as [->|].
+      * assert (k0 = k)
+          by (destruct (flag s k); destruct H as [[H|H]|H]; try discriminate; injection H; auto).
+        subst k0. apply (nl_pcs s I c k). left. left. auto.
+      * apply (nl_pcs s I c'); auto.
+    + apply (nl_flag s I).
+  - (* swap *)
+    rename H into Hc. assert (Hlt : c < length (npcs s)) by (apply nth_lt; congruence).
+    assert (Hk : In k (called s)) by (apply (nl_pcs s I c k); left; right; auto).
+    constructor; simpl.
+    + intro k0. pose proof (pushing_set k0 (npcs s) c (if flag s k then NIdle else NPush k) Hlt) as P.
+      rewrite Hc in P. pose proof (nl_cnt s I k0) as C. unfold updf.
+      destruct (Nat.eqb_spec k0 k) as [->|N].
+      * destruct (flag s k); simpl in P; try rewrite Nat.eqb_refl in P; lia.
+      * destruct (flag s k); simpl in P; try (destruct (Nat.eqb_spec k0 k); [congruence|]); lia.
+    + intros k0 Hin. unfold updf. destruct (Nat.eqb_spec k0 k) as [->|N]; auto.
+      destruct (nl_called s I k0 Hin) as [?|(c' & Hw)]; auto.
+      right. exists c'. rewrite nth_nset by auto. destruct (Nat.eqb_spec c' c) as [->|]; auto.
+      rewrite Hc in Hw. destruct Hw as [Hw|Hw]; [discriminate|]. injection Hw as <-. congruence.
+    + intros c' k0 H. rewrite nth_nset in H by auto. destruct (Nat.eqb_spec c' c) as [->|].
+      * assert (k0 = k)
+          by (destruct (flag s k); destruct H as [[H|H]|H]; try discriminate; injection H; auto).
+        subst k0. auto.
+      * apply (nl_pcs s I c'); auto.
+    + intros k0. unfold updf. destruct (Nat.eqb_spec k0 k) as [->|N]; auto. apply (nl_flag s I).
+  - (* push *)
+    rename H into Hc. assert (Hlt : c < length (npcs s)) by (apply nth_lt; congruence).
+    constructor; simpl.
+    + intro k0. pose proof (pushing_set k0 (npcs s) c NIdle Hlt) as P. rewrite Hc in P. simpl in P.
+      pose proof (nl_cnt s I k0) as C.
+      destruct (Nat.eq_dec k k0) as [->|N].
+      * rewrite Nat.eqb_refl in P. lia.
+      * destruct (Nat.eqb_spec k0 k); [congruence|]. lia.
+    + intros k0 Hin. destruct (nl_called s I k0 Hin) as [?|(c' & Hw)]; auto.
+      right. exists c'. rewrite nth_nset by auto. destruct (Nat.eqb_spec c' c) as [->|]; auto.
+      rewrite Hc in Hw. destruct Hw; discriminate.
+    + intros c' k0 H. rewrite nth_nset in H by auto. destruct (Nat.eqb_spec c' c) as [->|].
+      * destruct H as [[H|H]|H]; discriminate.
+      * apply (nl_pcs s I c'); auto.
+    + apply (nl_flag s I).
+Qed.
+
+Lemma pushing_idle k l : (forall c, nth c l NIdle = NIdle) -> pushing k l = 0.
+Proof.
+  induction l as [|p tl IH]; intros H; simpl; auto.
+  pose proof (H 0) as H0. simpl in H0. subst p. simpl. apply IH. intro c. apply (H (S c)).
+Qed.
+
+(** at quiescence (all notify calls returned, no reset in between) the list holds exactly the ids
+    that were notified, each once: no notification lost, none duplicated *)
+Theorem notification_none_lost n s : nreach n s -> (forall c, nth c (npcs s) NIdle = NIdle) ->
+  forall k, (In k (nlist s) <-> In k (called s)) /\ count_occ Nat.eq_dec (nlist s) k <= 1.
+Proof.
+  intros R Q k. assert (I : NLInv s).
+  { clear Q. induction R; [apply nlinv_init|eapply nlinv_step; eauto]. }
+  pose proof (nl_cnt s I k) as C. rewrite (pushing_idle k _ Q) in C.
+  split; [|destruct (flag s k); lia]. split.
+  - intro Hin. apply (count_occ_In Nat.eq_dec) in Hin. apply (nl_flag s I).
+    destruct (flag s k); auto. lia.
+  - intro Hin. apply (count_occ_In Nat.eq_dec).
+    destruct (nl_called s I k Hin) as [E|(c & Hw)]; [rewrite E in C; lia|].
+    rewrite Q in Hw. destruct Hw; discriminate.
+Qed.
+End NL.
